@@ -98,6 +98,16 @@ impl PivotFinder {
         debug!("pivots: {:?} => {}.", self.str.shape(), self.pivots.count());
     }
 
+    /// Verification entry: presets the given pivots (in the finder's own row/col coordinates)
+    /// and runs only the cycle-free phase, so that every remaining row becomes a task.
+    #[cfg(yui_verif)]
+    pub fn verif_run_cycle_free(&mut self, preset: &[(usize, usize)]) {
+        for &(i, j) in preset { 
+            self.pivots.set(i, j);
+        }
+        self.find_cycle_free_pivots();
+    }
+
     pub fn result(&self) -> Vec<(usize, usize)> { 
         let tree = self.pivots.iter().map(|(i, j)| { 
             let list = self.str.cols_in(i).filter(|&&j2|
@@ -252,6 +262,9 @@ impl PivotFinder {
         let row_counter = SyncCounter::new();
 
         remain_rows.par_iter().for_each(|&i| { 
+            #[cfg(yui_verif)]
+            yui::verif::point("pivot:task-start", Some(&|| pivots.try_read().is_ok()));
+
             let mut loc_pivots = init_tls(&loc_pivots_tls, || 
                 pivots.read().unwrap().clone()
             ).borrow_mut();
@@ -289,6 +302,9 @@ impl PivotFinder {
             // If changes are made in other threads, update `loc_pivots` and retry.
             // Otherwise, modify `pivots` and exit.
         
+            #[cfg(yui_verif)]
+            yui::verif::point("pivot:before-write", Some(&|| pivots.try_write().is_ok()));
+
             let mut pivots = pivots.write().unwrap();
             w.update_diff(&loc_pivots, &pivots);
             
